@@ -111,12 +111,31 @@ def run(tier, seed):
                     chk.sample({"args": rp["args"], "impl": il[:200], "os_reads": len(new_reads)})
     # default algorithms offered = accepted by default (behavioural)
     import inspect
+    from harness import regsim, authsim
     o = webauthn.generate_registration_options(rp_id="a", rp_name="b", user_name="c")
     offered = [int(p.alg) for p in o.pub_key_cred_params]
-    accepted = [int(x) for x in inspect.signature(webauthn.verify_registration_response).parameters["supported_pub_key_algs"].default]
+    d = inspect.signature(webauthn.verify_registration_response).parameters["supported_pub_key_algs"].default
     chk.evals += 1
-    if offered != accepted:
-        chk.violation("algorithms offered by default differ from those registration verification accepts by default", "default-algs", {"offered": offered, "accepted": accepted})
+    if isinstance(d, (list, tuple)) and offered != [int(x) for x in d]:
+        chk.violation("algorithms offered by default differ from the default argument of registration verification", "default-algs", {"offered": offered, "default_argument": [int(x) for x in d]})
+    # behaviourally: one registration per credential algorithm, verified with NO algorithm list given
+    kind_of = {}
+    for k, (fam, curve, alg, scheme) in authsim.KINDS.items():
+        kind_of.setdefault(alg, k)
+    accepted = []
+    for alg, kind in sorted(kind_of.items()):
+        s = regsim.RScn("none", kind)
+        pd, reg = regsim.build(s)
+        chk.evals += 1
+        try:
+            webauthn.verify_registration_response(credential=reg.as_record(), expected_challenge=pd["challenge"], expected_rp_id=pd["rp_id"], expected_origin=pd["origin"])
+            accepted.append(alg)
+        except Exception as e:
+            if alg in offered:
+                chk.violation(f"algorithm {alg} is offered by default but a registration using it is refused by default: {fw.classify_exc(e)}", f"default-algs offered-not-accepted {alg}", {"alg": alg, "offered": offered})
+    if sorted(accepted) != sorted(offered):
+        chk.violation("algorithms accepted by default differ from those offered by default", "default-algs accepted-vs-offered",
+                      {"offered": offered, "accepted_by_default": accepted, "how": "fmt=none registration per credential algorithm, verify_registration_response called without supported_pub_key_algs"})
     # real OS source: distinctness / balance (a test)
     N = 3000 if quick else 20000
     seen_vals = set()
